@@ -165,4 +165,4 @@ def prop(case):
     return Obs(busy and multi_switch, labels, checks=3 * len(b.c.lines) * lanes)
 
 
-PARTS = [Part('window', prop, strategy=cases, quick=(8, 350), thorough=(16, 2500))]
+PARTS = [Part('window', prop, strategy=cases, quick=(8, 350), thorough=(16, 8000))]
